@@ -808,6 +808,10 @@ class Engine:
         for path in list(self.process_paths.keys()):
             if starts_with(path, deletion):
                 del self.process_paths[path]
+                # forget how far the deleted process got: a process
+                # created later at the same path starts afresh and must
+                # not inherit the old one's pending update
+                self.front.pop(path, None)
 
         for path in list(self._step_paths):
             if starts_with(path, deletion):
